@@ -45,7 +45,8 @@ def factor(nu, kind, style):
 
 
 def I(x):
-    return int(round(float(x) * P))
+    # clamped: a value written in an entirely different unit stays a 32-bit integer for TLC (and is still far from what is expected)
+    return int(max(-1e9, min(1e9, round(float(x) * P))))
 
 
 # ---------------- independent tokenizers -------------------------------------------------------------------------------------
@@ -74,7 +75,7 @@ def tok_data(text):
             out.append({'k': 'section', 'name': t[0], 'comment': comment.strip()})
         elif all(NUM.match(x) for x in t):
             isint = [bool(re.match(r'^[+-]?\d+$', x)) for x in t]
-            out.append({'k': 'row', 'v': [int(x) if ii else I(x) for x, ii in zip(t, isint)], 'isint': isint})
+            out.append({'k': 'row', 'v': [max(-10 ** 9, min(10 ** 9, int(x))) if ii else I(x) for x, ii in zip(t, isint)], 'isint': isint})
         else:
             out.append({'k': 'other', 'text': raw[:40]})
     while out and out[-1]['k'] == 'blank' and len(out) > 1 and out[-2]['k'] == 'blank':
@@ -260,6 +261,19 @@ STYLES = [('hybridsq', 'hybrid sphere charge'), ('atomic', 'atomic'), ('charge',
           ('bond', 'bond'), ('angle', 'angle')] + [(k_, k_) for k_ in ('peri', 'dipole', 'electron', 'ellipsoid', 'line', 'tri', 'body', 'wavepacket')]
 
 
+class _StubPotential(object):
+    """stands in for a potentials-package LAMMPS potential: its own unit and atom styles, which explicitly passed values override"""
+    def __init__(self, units, atom_style):
+        self.units = units
+        self.atom_style = atom_style
+
+    def normalize_symbols(self, symbols):
+        return list(symbols)
+
+    def pair_data_info(self, f, pbc, symbols=None, masses=None, atom_style=None, units=None, prompt=False, comments=True):
+        return 'units %s\natom_style %s\n\nboundary %s\nread_data %s\n' % (units, atom_style, ' '.join('p' if x else 'm' for x in pbc), f)
+
+
 def run(ctx):
     import atomman as am
     import atomman.unitconvert as uc
@@ -290,7 +304,10 @@ def run(ctx):
             try:
                 dd_ = dict(d, vel=None) if skey in RARE else d        # the rare styles carry their own extra velocity columns: written without velocities
                 s = build_system(am, nu, dd_, units)
-                text, info = s.dump('atom_data', atom_style=sname, units=units, float_format=ff, safecopy=True)
+                kwp = {}
+                if rng.random() < .3:       # a potential is given as well: explicitly passed units / atom_style take precedence over the potential's own
+                    kwp['potential'] = _StubPotential(list(UNITS)[int(rng.integers(0, len(UNITS)))], ['atomic', 'charge', 'full'][int(rng.integers(0, 3))])
+                text, info = s.dump('atom_data', atom_style=sname, units=units, float_format=ff, safecopy=True, **kwp)
                 recs.append({'ev': 'data', 'tag': 'data:%s:%s:%s:%d' % (sname, units, ff, i), 'lines': tok_data(text), 'info': tok_info(info),
                              'sys': sysrec(dd_, skey, sname, units), 'slack': 1, 'p': 3})
             except Exception as e:
